@@ -19,6 +19,7 @@ RULE = (
     "Non-trivial = every program (each is a distinct misuse/control); exhaustive over the stated product."
     ' Reserved keywords are also passed to callables without ** (and with defaults / *rest) under a precondition th'
     'at reads _ARGS/_KWARGS: TypeError, never a ViolationError on the shadowed placeholder.'
+    ' Asynchronous invariant conditions also behind functools.partial (of a coroutine function, an asynchronous generator function, callable objects) and as bound methods.'
 )
 ASSUMPTIONS = ["invariant conditions with defaulted extra parameters and enabled=False decorators are silent zones"]
 
